@@ -416,7 +416,11 @@ func solveAll(dir string, obls []*Obligation, tmo time.Duration) {
 	}
 	parallelDo(2, len(hard), func(k int) {
 		i := hard[k]
-		obls[i].Result = solveStage2(files[i], obls[i].Result, tmo)
+		t := tmo
+		if obls[i].Finding != nil {
+			t = tmo / 4 // expected to fail (known finding): the decisive query is the one outside the region
+		}
+		obls[i].Result = solveStage2(files[i], obls[i].Result, t)
 	})
 }
 
